@@ -75,20 +75,39 @@ class CPool:
         elif pol['order'] == 'rotate':
             k = (pol['seed'] + 1) % max(n, 1)
             idx = idx[k:] + idx[:k]
+        elif pol['order'] == 'lex':
+            # the seed-th permutation in lexicographic order (mod n!): seeds 0..23 run every order of <= 4 tasks
+            import math
+            k = pol['seed'] % math.factorial(min(n, 12)) if n else 0
+            pool_, idx = list(range(n)), []
+            for j in range(n, 0, -1):
+                f = math.factorial(j - 1)
+                q, k = divmod(k, f) if j <= 12 else (0, k)
+                idx.append(pool_.pop(q % len(pool_)))
         return idx
 
     def _run(self, f, tasks, kind):
         tasks = list(tasks)
         order = self._order(len(tasks))
         res = [None] * len(tasks)
+        audit = CPool.policy.get('audit')
+        files = [None] * len(tasks)
         for i in order:
+            if audit:
+                AUDIT['events'] = []
+                AUDIT['on'] = True
             try:
                 res[i] = ('ok', self._copy(f(self._copy(tasks[i]))))
             except Exception as e:   # transported to the parent like a real pool
                 res[i] = ('exc', e)
+            if audit:
+                AUDIT['on'] = False
+                files[i] = list(AUDIT['events'])
         entry = {'kind': kind, 'fun': getattr(f, '__name__', str(f)), 'ntasks': len(tasks), 'order': order}
         if CPool.policy.get('capture'):
             entry['results'] = [r[1] if r[0] == 'ok' else None for r in res]
+        if audit:
+            entry['files'] = files
         CPool.log.append(entry)
         return order, res
 
@@ -149,8 +168,21 @@ def install_pool(mode='controlled'):
                 m.Pool = _REAL[m.__name__]
 
 
-def set_policy(order='identity', seed=0, capture=False):
-    CPool.policy = {'order': order, 'seed': seed, 'capture': capture}
+AUDIT = {'on': False, 'events': [], 'installed': False}
+
+
+def _audit_hook(event, args):
+    if AUDIT['on'] and event == 'open' and args and isinstance(args[0], (str, bytes)):
+        mode = args[1] if len(args) > 1 and isinstance(args[1], str) else 'r'
+        path = args[0].decode() if isinstance(args[0], bytes) else args[0]
+        AUDIT['events'].append((os.path.abspath(path), 'w' if any(c in mode for c in 'wax+') else 'r'))
+
+
+def set_policy(order='identity', seed=0, capture=False, audit=False):
+    if audit and not AUDIT['installed']:
+        sys.addaudithook(_audit_hook)
+        AUDIT['installed'] = True
+    CPool.policy = {'order': order, 'seed': seed, 'capture': capture, 'audit': audit}
     CPool.ncalls = 0
     CPool.log = []
 
